@@ -105,6 +105,33 @@ def _tiny_scenarios(states: List[Dict[str, Any]], rng: random.Random, all_combos
     return scs
 
 
+def _edge_scenarios(states: List[Dict[str, Any]], rng: random.Random, n_predict: int):
+    """Boundary of the option ranges (IntegerizeMC mode "edge"): every "done" state on the real MATCH classes with the
+    state's scale_bit / shift_pos; MAUPITI (constants 16 / 32 whatever the options) once per distinct operand set whose
+    target it can represent exactly at its own exact shift.  Every "sel" state on the real _integer_approximation."""
+    done = sorted((s for s in states if s["ph"] == "done"), key=_canon)
+    tiny, seen = [], set()
+    for i, s in enumerate(done):
+        base = {"kind": "tiny", "ib": s["ib"], "ob": s["ob"], "w": list(s["w"]), "x": list(s["x"]), "b": s["b"][0],
+                "tm": s["tm"][0], "te": s["te"], "sbit": s["sbit"], "spos": s["spos"], "predict": False}
+        cls = ("lin", "conv", "convpad")[i % 3] if s["x"][1] == 0 else ("lin", "conv")[i % 2]
+        tiny.append(dict(base, backend="match", cls=cls))
+        k = (s["ib"], s["ob"], tuple(s["w"]), tuple(s["x"]), s["b"][0], s["tm"][0], s["te"])
+        if k not in seen and s["tm"][0] <= 2 ** 15:
+            seen.add(k)
+            tiny.append(dict(base, backend="maupiti", cls=cls))
+    for sc in rng.sample(tiny, min(n_predict, len(tiny))):
+        sc["predict"] = True
+    approx = []
+    for s in sorted((s for s in states if s["ph"] == "sel"), key=_canon):
+        for cls in ("lin", "conv"):
+            approx.append({"kind": "approx", "backend": "match", "cls": cls, "tms": list(s["tm"]), "te": s["te"],
+                           "bs": list(s["b"]), "sbit": s["sbit"], "spos": s["spos"], "predict": False})
+    for sc in rng.sample(approx, min(n_predict, len(approx))):
+        sc["predict"] = True
+    return tiny, approx
+
+
 def _approx_scenarios(states: List[Dict[str, Any]], rng: random.Random, n_predict: int):
     sel = sorted((s for s in states if s["ph"] == "sel"), key=_canon)
     scs = []
@@ -211,14 +238,64 @@ def random_net(rng: random.Random, idx: int) -> Dict[str, Any]:
             "wseed": rng.randrange(1 << 30), "xseed": rng.randrange(1 << 30), "layers": layers, "nsamp": 5, "idx": idx}
 
 
-def net_scenarios(rng: random.Random, n: int) -> List[Dict[str, Any]]:
+# MATCH option sets: ordinary ones and the extremes of the documented ranges (shift_pos 32 = shifts 0..31, shift_pos 1,
+# scale_bit 1 / 8 / 32)
+EDGE_OPTS = [(32, 32), (24, 32), (16, 32), (8, 32), (32, 1), (1, 32), (1, 1)]
+
+
+def low_bias_net(rng: random.Random, idx: int) -> Dict[str, Any]:
+    """Low activation precision (2 / 4 bits everywhere) and biases below one output level: the networks in which the
+    32-bit guard on bias*scale lets the LARGEST shifts through."""
+    ab = rng.choice([2, 4])
+    c = {"bias": True, "bn": False, "ab": ab, "clip": rng.choice([2500, 6000])}
+    layers = [_conv(rng, k=[3, 3], p=[1, 1], wb=rng.choice(BITS), **c)]
+    if rng.random() < 0.5:
+        layers.append(_conv(rng, k=[1, 1], p=[0, 0], wb=rng.choice(BITS), **c))
+    layers.append({"op": "flat"})
+    layers.append({"op": "lin", "out": rng.choice([3, 5]), "relu": True, "wb": rng.choice(BITS), **c})
+    layers.append({"op": "lin", "out": 3, "relu": False, "wb": 8, **c})
+    return {"kind": "net", "c0": 2, "h": 6, "w": 6, "in_bits": ab, "batch": 2, "gain": rng.choice([1.0, 2.5]),
+            "bias_gain": rng.choice([0.0, 0.02, 0.1]), "wseed": rng.randrange(1 << 30), "xseed": rng.randrange(1 << 30),
+            "layers": layers, "nsamp": 5, "idx": idx}
+
+
+def net_scenarios(rng: random.Random, n: int, n_low: int) -> List[Dict[str, Any]]:
     scs = []
     for i in range(n):
         base = random_net(rng, i)
-        m = dict(base, backend="match", scale_bit=rng.choice([16, 24, 24, 32]), shift_pos=rng.choice([16, 24, 24, 31]))
+        if rng.random() < 0.25:
+            sb, sp = rng.choice(EDGE_OPTS)
+        else:
+            sb, sp = rng.choice([16, 24, 24, 32]), rng.choice([16, 24, 24, 31])
+        m = dict(base, backend="match", scale_bit=sb, shift_pos=sp)
         u = dict(base, backend="maupiti", scale_bit=16, shift_pos=32)
         scs += [m, u]
+    for i in range(n_low):
+        base = low_bias_net(rng, n + i)
+        sb, sp = EDGE_OPTS[i % 4]                                  # shift_pos 32 with scale_bit 32 / 24 / 16 / 8
+        scs += [dict(base, backend="match", scale_bit=sb, shift_pos=sp), dict(base, backend="maupiti", scale_bit=16, shift_pos=32)]
     return scs
+
+
+def shift_histogram(tiny_tr, net_tr, life_tr) -> Dict[str, Dict[str, Dict[int, int]]]:
+    """selected shifts of REAL backend layer objects, per backend and scenario family"""
+    h: Dict[str, Dict[str, Dict[int, int]]] = {"match": {}, "maupiti": {}}
+
+    def add(bk, fam, sh):
+        d = h[bk].setdefault(fam, {})
+        d[sh] = d.get(sh, 0) + 1
+    for t in tiny_tr:
+        if not t["exc"]:
+            add(t["backend"], "tiny", t["shift"])
+    for t in net_tr:
+        for l in t["layers"]:
+            add(t["backend"], "net", l["shift"])
+    for t in life_tr:
+        for e in t["ev"]:
+            if e["a"] == "int":
+                for l in e["obs"]["layers"]:
+                    add(e["backend"], "life", l["shift"])
+    return {bk: {fam: dict(sorted(d.items())) for fam, d in fams.items()} for bk, fams in h.items()}
 
 
 # ------------------------------------------------------------------------------------------------
@@ -373,6 +450,11 @@ def run(tier: str, seed: int, replay=None) -> int:
         res = R.design("IntegerizeMC", f"IntegerizeMC_{bad}", expect_ok=False, workers=2)
         if res.violations[0]["name"] not in inv:
             raise tlc.MachineryError(f"sanity config {bad}: expected {inv} to fail, got {res.violations[0]['name']}")
+    # boundary of the documented option ranges with unbounded integers; "2^shift in 32-bit two's complement" must fail
+    res = R.design("IntegerizeMC", "IntegerizeMC_wrap32", expect_ok=False, workers=2)
+    if res.violations[0]["name"] != "EdgeLevel" or res.violations[0]["state"].get("sh") != 31:
+        raise tlc.MachineryError("sanity config wrap32: expected EdgeLevel to fail at shift 31")
+    edge_states = dump_states("IntegerizeMC", "IntegerizeMC_edge_quick" if quick else "IntegerizeMC_edge_thorough", R, workers=W)
     layer_states = dump_states("IntegerizeMC", "IntegerizeMC_layer_replay" if quick else "IntegerizeMC_layer_replay_thorough",
                                R, workers=W)
     approx_states = dump_states("IntegerizeMC", "IntegerizeMC_approx_quick" if quick else "IntegerizeMC_approx_thorough",
@@ -391,7 +473,7 @@ def run(tier: str, seed: int, replay=None) -> int:
         life += _life_scenarios(dump_states("IntegerizeLife", "IntegerizeLife_kinds", R, workers=4), 2, 2, rng, False)
         life += _life_scenarios(dump_states("IntegerizeLife", "IntegerizeLife_nests", R, workers=4), 1, 2, rng, False)
     else:
-        life += _life_scenarios(dump_states("IntegerizeLife", "IntegerizeLife_thorough", R, workers=4), 3, 4, rng, True)
+        life += _life_scenarios(dump_states("IntegerizeLife", "IntegerizeLife_thorough", R, workers=4), 3, 4, rng, False)
         l4 = _life_scenarios(dump_states("IntegerizeLife", "IntegerizeLife_thorough4", R, workers=4), 4, 4, rng, False)
         life += rng.sample(l4, 600)             # length 4: a seeded sample of the 1372 histories
         life += _life_scenarios(dump_states("IntegerizeLife", "IntegerizeLife_nests_thorough", R, workers=4), 2, 4, rng, False)
@@ -419,12 +501,18 @@ def run(tier: str, seed: int, replay=None) -> int:
     tiny = _tiny_scenarios(layer_states, rng, all_combos=not quick, n_states=3500 if quick else 0,
                            n_predict_mau=40 if quick else 400)
     approx = _approx_scenarios(approx_states, rng, n_predict=40 if quick else 400)
+    e_tiny, e_approx = _edge_scenarios(edge_states, rng, n_predict=40 if quick else 300)
+    if not quick and len(e_tiny) > 40000:
+        e_tiny = rng.sample(e_tiny, 40000)
+    tiny += e_tiny
+    approx += e_approx
     t0 = time.time()
     tiny_tr = intnet.run_scenarios(tiny)
     approx_tr = intnet.run_scenarios(approx)
     R.extra["replay"] = {"layer_states_done": sum(1 for s in layer_states if s["ph"] == "done"), "tiny_replays": len(tiny),
                          "approx_states_sel": sum(1 for s in approx_states if s["ph"] == "sel"),
-                         "approx_replays": len(approx), "wall_s": round(time.time() - t0, 1)}
+                         "approx_replays": len(approx), "edge_tiny_replays": len(e_tiny), "edge_approx_replays": len(e_approx),
+                         "wall_s": round(time.time() - t0, 1)}
     R.sample({"scenario": tiny[0], "observed": {k: tiny_tr[0][k] for k in ("scale", "shift", "addend", "out")}})
     R.sample({"scenario": approx[-1], "observed": {k: approx_tr[-1][k] for k in ("scales", "shift", "exc")}})
     R.validate("IntegerizeTrace", "IntegerizeTrace", tiny_tr, tiny, label="tiny layers on the real classes",
@@ -433,7 +521,7 @@ def run(tier: str, seed: int, replay=None) -> int:
                nontrivial=lambda s: any(abs(b) >= 2 ** 20 for b in s["bs"]), workers=W, chunk=6000)
 
     # ---- 4. code -> spec: networks ---------------------------------------------------------------------------
-    nets = net_scenarios(rng, 80 if quick else 2500)
+    nets = net_scenarios(rng, 70 if quick else 2300, 16 if quick else 200)
     t0 = time.time()
     net_tr = intnet.run_scenarios(nets)
     bad_stage = [t for t in net_tr if t["stage"] in ("mps", "match")]
@@ -466,6 +554,17 @@ def run(tier: str, seed: int, replay=None) -> int:
                 break
     R.validate("IntegerizeTrace", "IntegerizeTrace", net_tr, nets, label="networks",
                nontrivial=lambda s: nt[intnet_key(s)], workers=W, chunk=1500)
+    # every admissible shift must actually have been selected by a real MATCH layer (vacuity guard of the boundary part)
+    hist = shift_histogram(tiny_tr, net_tr, life_tr)
+    R.extra["selected_shifts"] = hist
+    match_all = set().union(*[set(d) for d in hist["match"].values()]) if hist["match"] else set()
+    match_net = set(hist["match"].get("net", {}))
+    missing = [s_ for s_ in range(32) if s_ not in match_all]
+    if missing:
+        raise tlc.MachineryError(f"vacuity guard: no real MATCH layer selected the shifts {missing}")
+    if 31 not in match_net or 0 not in match_net:
+        raise tlc.MachineryError("vacuity guard: no layer of a generated NETWORK selected shift 0 / shift 31 "
+                                 f"(network shifts seen: {sorted(match_net)})")
     R.extra["F22_observation"] = _f22_probe()
     R.exhaustive = False
     return R.finish()
